@@ -175,7 +175,19 @@ func (Prop) Generate(seed uint64, tier string) *core.Plan {
 		case 2:
 			body += "use(\"missing.p\")\n"
 		}
-		w.Files = append(w.Files, File{Name: names[i], Kind: "file", Content: corpus.Layout(r, body)})
+		switch r.Intn(10) {
+		case 0:
+			// literals that span physical lines: their line ends are data
+			body += fmt.Sprintf("add_key(ml%d, \"\"\"alpha\nbeta\"\"\")\n", i)
+		case 1:
+			body += fmt.Sprintf("add_key(rw%d, `gamma\n\tdelta`)\n", i)
+		}
+		content := corpus.Layout(r, body)
+		if r.Intn(6) == 0 {
+			// a file written on another platform: CR LF line ends (blank space between statements)
+			content = strings.ReplaceAll(content, "\n", "\r\n")
+		}
+		w.Files = append(w.Files, File{Name: names[i], Kind: "file", Content: content})
 	}
 	// decoys
 	if r.Intn(2) == 0 {
